@@ -13,18 +13,16 @@ CATS = {
 
 def known_class(j, cat, text):
     f = j.fmt
-    if f.codec == 0x21:
+    if f.codec == 0x21 and cat in ("write", "frames", "eof", "partition", "roundtrip") and (j.n % 2 == 1 or any(p % 2 == 1 for p in j.parts)):
+        # exactly the class of KF-VOX-ODD: a write call with an odd item count on a VOX handle (mono: items = frames) -- it returns count + 1 and stores one
+        # extra (zero) sample, which shows as the write count, the frame count / end of file, the split-dependent bytes; a job of even calls is never waived
         return "KF-VOX-ODD"
-    if f.major == 0x04 and f.codec in (0x40, 0x41, 0x42):
-        return "KF-RAW-DWVW-FRAMES"
+    if f.major == 0x04 and f.codec in (0x40, 0x41, 0x42) and cat in ("frames", "eof"):
+        return "KF-RAW-DWVW-FRAMES"      # headerless: the frame count is an estimate F >= N (more frames reported / delivered than written); the first N are exact
     if f.major in (0x01, 0x13) and f.codec == 0x20 and cat in ("frames", "eof", "snapshot"):
         return "KF-WAV-GSM-PAD"
     if f.major == 0x0F and cat in ("partition", "frames", "eof", "stale"):
         return "KF-XI-HEADER"
-    if f.major == 0x08 and cat == "snapshot":
-        return "KF-VOC-UPDATE"
-    if f.major == 0x08 and f.codec in (0x10, 0x11) and j.ch == 1 and cat in ("frames", "eof"):
-        return "KF-VOC-MONO-G711"
     if f.major == 0x0E and j.sr < 10 and j.n == 0 and cat in ("reopen", "snapshot", "roundtrip"):
         return "KF-PVF-TINY-FILE"
     if f.major == 0x0E and j.sr < 10 and cat == "snapshot" and text.startswith("crash-point image after 0 frames cannot be opened"):
